@@ -126,6 +126,17 @@ def main():
             # (an experiment switch to measure how faithfully that oracle reproduces networkx; never set by ./check)
             res = model.run(spec, obs['actions'], () if os.environ.get('VERIF_NO_ORDERS') else obs['orders'], obs['descendants'])
             d = []
+            # hypotheses of the kind-F theorems, evaluated by the extracted model on the orders recorded from the real chart
+            if res.get('plain') and not res.get('ambiguous_orders'):
+                st['plain_programs_runs'] += 1
+                if res.get('orders_valid'):
+                    st['plain_hypotheses_hold'] += 1
+                    if obs['verdict'] == 'deadlock':
+                        st['plain_deadlocks'] += 1     # would contradict C02_on_plain_programs_no_deadlock (reported by the C02 oracle too)
+                elif len(k2_broken) < 5:
+                    k2_broken.append(dict(diffs=['the launch / successor orders recorded from networkx do not satisfy valid_orders: '
+                                                 'the hypotheses of the theorems over all plain programs fail on this program'],
+                                          spec=spec, actions=obs['actions'], tag=tag, hashseed=os.environ.get('PYTHONHASHSEED')))
             if res.get('ambiguous_orders'):
                 st['ambiguous_orders'] += 1
             else:
